@@ -40,8 +40,33 @@ def model_lines(case, impl):
     return res
 
 
+def _canon_field(v):
+    items = v.split(",")
+    ans = sorted(m for m in items if m[:1] in ("O", "X"))
+    out, k = [], 0
+    for m in items:
+        if m[:1] in ("O", "X"):
+            out.append(ans[k])
+            k += 1
+        else:
+            out.append(m)
+    return ",".join(out)
+
+
 def normalize(line):
-    return "panic" if line.startswith("panic") else line
+    """Observations are compared up to the order in which the answers to different requests / inbound substreams
+    (`O..`, `X..`) reach a protocol within one operation (`FuturesUnordered`'s business, part of no property);
+    everything else keeps its place. The driver does the same (`canon` in Driver/Tcploop.lean)."""
+    if line.startswith("panic"):
+        return "panic"
+    if " p0=" not in line:
+        return line
+    toks = line.split(" ")
+    for i, t in enumerate(toks):
+        k, eq, v = t.partition("=")
+        if eq and k[:1] == "p" and k[1:].isdigit():
+            toks[i] = k + "=" + _canon_field(v)
+    return " ".join(toks)
 
 
 # ------------------------------------------------------------------------------------------ generator
